@@ -7,7 +7,7 @@ from vlib import big, bitstr_of_list
 
 PROP = 'C08'
 TRACE_MODULE = 'C08Trace.tla'
-RULE = ('behaviours of 30-60 calls over <= 12 live objects: new_builder, typed stores, store_ref/cell/slice, end_cell, '
+RULE = ('behaviours of the full-size TonBag machine chosen by TLC in simulation mode (24 / 40 calls each) replayed call by call, and seeded-random behaviours of 30-60 calls over <= 12 live objects: new_builder, typed stores, store_ref/cell/slice, end_cell, '
         'begin_parse / Slice.from_cell, loads/peeks/skips, to_builder, to_cell, copy, Cell(plain bitarray), Cell.order() with '
         'and without its argument, hash/to_boc observation, forget; distinct = distinct (op, kind of target, pool size) steps '
         'and distinct behaviours')
@@ -17,8 +17,9 @@ ASSUMPTIONS = ['TonBag.Do gives the owned object of each call; everything else m
 
 
 def model_checks(tier):
-    from drivers.bagmc import bag_checks
-    return bag_checks(tier)
+    from drivers.bagmc import bag_checks, bag_sim
+    import os
+    return bag_checks(tier) + [bag_sim(tier, int(os.environ.get('VERIF_SEED', '0') or 0))]
 
 
 def make_canaries(shards, rng, want):
@@ -127,6 +128,20 @@ def generate(tier, seed, ctx):
         else:
             pool.reset()
         behaviour(pool, rng, rng.randint(30, 60))
+    # spec -> code: behaviours of the TonBag machine chosen by TLC (simulation mode), replayed call by call; what the library
+    # did is recorded like everything else and goes back to TLC for validation
+    sims = ctx['mc'].get('bag_sim', [])
+    want = 150 if tier == 'quick' else 3000          # (TLC prints every candidate last step of every simulated behaviour)
+    if len(sims) > want:
+        sims = rng.sample(sims, want)
+    for j, calls in enumerate(sims):
+        if j % 10 == 0:
+            pool = bk.Pool()
+            shards.append(pool.records)
+        else:
+            pool.reset()
+        for c in calls:
+            pool.call(dict(c), tags=['tlc_behaviour'])
     k = 0
     for sh in shards:
         for r in sh:
@@ -145,5 +160,6 @@ def nontrivial_key(r):
 def extra_coverage(flat, ctx):
     calls = [r for r in flat if r.get('op') == 'call']
     return {'behaviours': sum(1 for r in flat if r.get('op') == 'reset'),
+            'calls_of_tlc_simulated_behaviours_replayed': sum(1 for r in calls if 'tlc_behaviour' in r.get('tags', [])),
             'max_live_objects': max(len(r['post']) for r in calls),
             'live_object_projections_checked': sum(len(r['post']) for r in calls)}
